@@ -89,6 +89,20 @@ def prod(a, axis=None, dtype=None, keepdims=False, split_every=None, out=None):
     )
 
 
+def _empty_partial(x, axis):
+    """Placeholder partial for a block with an empty reduced axis.
+
+    Empty along the reduced axes only, so that it still concatenates with the
+    partials of the neighbouring blocks along those axes.
+    """
+    if axis is None:
+        axis = range(x.ndim)
+    elif not isinstance(axis, (tuple, list)):
+        axis = (axis,)
+    axis = {a % x.ndim for a in axis} if x.ndim else set()
+    return x[tuple(slice(0, 0) if i in axis else slice(None) for i in range(x.ndim))]
+
+
 def chunk_min(x, axis=None, keepdims=None):
     """Version of np.min which ignores size 0 arrays"""
     if x.size == 0:
@@ -97,7 +111,7 @@ def chunk_min(x, axis=None, keepdims=None):
         try:
             return np.min(x, axis=axis, keepdims=keepdims)
         except ValueError:
-            return array_safe([], x, ndmin=x.ndim, dtype=x.dtype)
+            return _empty_partial(x, axis)
     else:
         return np.min(x, axis=axis, keepdims=keepdims)
 
@@ -110,7 +124,7 @@ def chunk_max(x, axis=None, keepdims=None):
         try:
             return np.max(x, axis=axis, keepdims=keepdims)
         except ValueError:
-            return array_safe([], x, ndmin=x.ndim, dtype=x.dtype)
+            return _empty_partial(x, axis)
     else:
         return np.max(x, axis=axis, keepdims=keepdims)
 
